@@ -1,10 +1,15 @@
 import AcraModel.Basic.Bytes
+import AcraModel.Sql.MysqlComment
 /-! Driver ops for C14. -/
 namespace Driver.C14
 open AcraModel
 
 def handle (op : String) (args : List String) : Option String :=
   match op, args with
+  -- extractcomment <complete comment, ASCII> → ok <version> <inner SQL> | panic
+  | "extractcomment", [c] => do
+      let c ← ofHex c
+      pure ((Sql.MysqlComment.extract c).render fun (v, s) => s!"{hexOf v} {hexOf s}")
   | _, _ => none
 
 end Driver.C14
